@@ -376,6 +376,10 @@ class Sim:
         fn()
 
     def _deliver(self, sock, payload, src):
+        if self.sockets.get((sock.addr, sock.chan)) is not sock:
+            # closed between readiness and callback: a closed transport reads nothing
+            self.stats["dgram_to_dead_socket"] += 1
+            return
         self.rec("rx", sock.node, (sock.chan, src, payload))
         self.stats["delivered"] += 1
         sock.deliver(payload, src)
